@@ -1,17 +1,17 @@
 """C11 - feature construction is additive, row-aligned and follows its stated rule."""
-FUNCTIONS = ['compute_expanded_multivalue_features']
+FUNCTIONS = ['compute_expanded_multivalue_features', 'compute_subfeatures']
 LEVEL = 'proof'
 EXPLANATION = ('contract on the real compute_expanded_multivalue_features, for every frame of strings (>= 1 row), every list of exploded features and every '
                'missing-symbol list: the result has the original columns first, the same row count, untouched original values, and every appended column is '
                'named MULTIEX-<feature>-<token> and is "1" exactly on the rows whose value (split at "," and "-") contains the token, "" elsewhere (four nested '
                'loop invariants; the dictionary of new columns carries the rule as an invariant).  Two obligations come from the pandas stubs themselves: '
                'pd.DataFrame(dict) needs columns of one length, and pd.concat(axis=1) needs the appended block to have exactly the frame\'s row count - '
-               'that is the row-alignment half of the property.  Sub-features, noise controls, transformations and the whole constructor pipeline under '
+               'that is the row-alignment half of the property.  compute_subfeatures is proved the same way (six loops): originals first and untouched, row alignment, and every appended column is either a one-sided sub-feature SUBFEATURE-<a>&<v> carrying a + "AND" + b exactly on the rows where b == v ("" elsewhere) or a two-sided SUBFEATURE|<a>|<b>-<va>&<vb> that is "1" exactly where (a, b) == (va, vb) and "0" elsewhere.  Noise controls, transformations and the whole constructor pipeline under '
                'all 32 flag subsets are checked by executable contract (bounded)')
 ASSUMPTIONS = ['pandas: DataFrame(dict of equal-length lists) has one column per key over a RangeIndex; concat(axis=1) of two RangeIndex frames with equal '
                'row counts puts the columns side by side; df[name].values.tolist() are the cells of the column (all str)',
                'an appended column whose name equals an existing column is outside the contract (df[name] would be ambiguous)',
                'str.split / str.replace are uninterpreted (the rule is stated with the same operations: split at "-" after replacing "," by "-")',
                'iteration order of a set is arbitrary but each element is visited once',
-               'compute_subfeatures, include_noisy_features, enrich_with_transformations, compute_batch_ranking: bounded stand-in only']
-TRUSTED = ['pandas.DataFrame', 'pandas.concat', 'str.split', 'str.replace', 'set.union', 'sorted']
+               'include_noisy_features, enrich_with_transformations, compute_batch_ranking: bounded stand-in only', 'Series.unique() returns each distinct cell once; df[[a, b]] is the sub-frame of those columns; the mapping string is well formed (each pair has exactly one operator and names two columns)']
+TRUSTED = ['Series.unique', 'Series.tolist', 'pandas.DataFrame', 'pandas.concat', 'str.split', 'str.replace', 'set.union', 'sorted']
